@@ -20,6 +20,7 @@ import (
 
 	"verif/harness/cachekit"
 	simcheck "verif/sim/check"
+	"verif/sim/gen"
 	simos "verif/sim/os"
 	simrt "verif/sim/rt"
 	simtime "verif/sim/time"
@@ -43,8 +44,12 @@ type Step struct {
 type Plan struct {
 	Start   int64  `json:"start,omitempty"`   // initial clock offset in seconds
 	SameDir bool   `json:"samedir,omitempty"` // all action ids share their first byte (one cache subdirectory)
+	DirByte int    `json:"dirbyte,omitempty"` // with SameDir: that first byte (0 = 0x10); the first and the last subdirectories of the scan are the interesting ones
 	Sizes []int  `json:"sizes"`
 	Steps []Step `json:"steps"`
+	// Sched decides the interleaving of whatever goroutines the code under test itself starts (the
+	// histories are driven by one task)
+	Sched simrt.Sched `json:"sched"`
 }
 
 const (
@@ -59,7 +64,7 @@ var advances = []int64{1, 59 * 60, 61 * 60, day - 60, day, day + 60, 4*day + 23*
 
 var recordOffsets = []int64{0, 1, hour, day - 60, day - 1, day, day + 1, day + 60, 30 * day, -1, -(hour - 1), -hour, -(hour + 1), -day}
 
-var foreignNames = []string{"10/10-d/keep", "10/0f-a/keep", "README", "fuzz/x", "00/note.txt", "00/abc-x", "7f/name-ab", "ab/0123-a.tmp", "trimx.txt", "fuzz/seed-d", "othertool/index-a", "fuzz/corpus/x-a"}
+var foreignNames = []string{"10/10-d/keep", "10/0f-a/keep", "ff/00-d/keep", "README", "fuzz/x", "00/note.txt", "00/abc-x", "7f/name-ab", "ab/0123-a.tmp", "trimx.txt", "fuzz/seed-d", "othertool/index-a", "fuzz/corpus/x-a"}
 
 // genDur draws a duration in seconds: short gaps (decide whether a use
 // refreshes the mtime), values around the three thresholds of the statement with
@@ -102,6 +107,9 @@ func genPlan(t *rapid.T, tier string) any {
 		max = 30
 	}
 	p.SameDir = rapid.Bool().Draw(t, "samedir")
+	if p.SameDir {
+		p.DirByte = rapid.SampledFrom([]int{0, 0, 0xff, 0xfe, 0xfc, 0x01}).Draw(t, "dirbyte")
+	}
 	jumps := rapid.IntRange(0, 3).Draw(t, "jumps") == 0
 	n := rapid.IntRange(2, max).Draw(t, "nsteps")
 	if rapid.IntRange(0, 2).Draw(t, "template") == 0 {
@@ -205,6 +213,7 @@ func genPlan(t *rapid.T, tier string) any {
 		}
 		p.Steps = append(p.Steps, s)
 	}
+	p.Sched = gen.Sched(t, 300)
 	return p
 }
 
@@ -268,7 +277,11 @@ func run(t *testing.T, plan any, keep bool) *simcheck.Outcome {
 	trimsDue, trimsNotDue, removed, keptNearBoundary := 0, 0, 0, 0
 	jumped := false
 
-	rep := simrt.Run(t, simrt.Options{Sched: simrt.Sched{Policy: "random", Seed: 1}, Strict: true, MaxSteps: 400000, KeepTrace: keep}, func(s *simrt.Sim) {
+	sched := p.Sched
+	if sched.Policy == "" {
+		sched = simrt.Sched{Policy: "random", Seed: 1} // plans recorded before schedules were drawn
+	}
+	rep := simrt.Run(t, simrt.Options{Sched: sched, Strict: true, MaxSteps: 400000, KeepTrace: keep}, func(s *simrt.Sim) {
 		c, err := cache.Open(dir)
 		if err != nil {
 			out.Inconclusive = "cache.Open: " + err.Error()
@@ -280,6 +293,9 @@ func run(t *testing.T, plan any, keep bool) *simcheck.Outcome {
 			id := cachekit.ActionID(st.ID)
 			if p.SameDir {
 				id[0] = 0x10
+				if p.DirByte != 0 {
+					id[0] = byte(p.DirByte)
+				}
 			}
 			where := fmt.Sprintf("step %d %s", si, st.Kind)
 			advanceTo := func(target time.Time) {
